@@ -1173,7 +1173,7 @@ class SMLab(Lab):
     assumptions = (
         "the HAL simulator's paused FPGA clock is what magicbot.state_machine.getTime reads",
         "SpecSM (vf/labs/sm_lab.py) is the reading of C01-C04/C13; where the statements are silent it is don't-care and follows the implementation",
-        "domain restrictions of DESIGN.md 3.1 (one action per state invocation, default state never a transition target, external next_state only while executing, the duration of the pending state is not edited)",
+        "domain restrictions of DESIGN.md 3.1 / D.5: one action per state invocation (autonomous machines also done() followed by next_state()/next_state_now()), the default state is never a transition target, next_state() from outside only while executing, no two different engage(initial_state=..) before one execute()",
     )
 
     def setup(self):
